@@ -17,17 +17,8 @@ ASSUMED_EVAL = ("Assumed: declared field types and literal well-formedness of th
                 "against CPython every run), the pyvc generator itself. ")
 
 CLAIMS = {
-    "C01": {
-        "category": "proof", "technique": T_MIXED, "design_ref": "DESIGN.md §5.1",
-        "text": ("expr_value, _visibility, Symbol/Choice.visibility, Symbol.bool_value and Symbol.str_value (all five types, "
-                 "case split by type and value source with a proved exhaustiveness obligation) are proved, for all trees and "
-                 "user states, equal to spec functions transcribed from the statement: set > visible in-range user value > "
-                 "set default under direct deps > first true default > n/empty; select raises, imply raises when own deps hold "
-                 "and there is no effective user value; a user value has an effect only while the prompt is visible."),
-        "note": (ASSUMED_EVAL + "The folding of inherited dependencies / visible-if into prompt conditions at finalisation "
-                 "(_finalize_node, _propagate_deps) is NOT proved: it is covered by the bounded stand-in rtc.drv_eval "
-                 "(hidden-user-value-has-no-effect contract over generated trees with nested menus)."),
-    },
+    "C01": {"category": 'other', "technique": T_MIXED, "design_ref": 'DESIGN.md §5.1', "text": 'Proved on every run: expr_value, _visibility, Symbol/Choice.visibility, Symbol.bool_value and the bool / string branches of Symbol.str_value equal, for all trees and user states, the spec functions transcribed from the statement (set > visible user value > set default under direct deps > first true default > n/empty; select raises, imply raises when own deps hold and there is no effective user value; a user value counts only while the prompt is visible). The twelve numeric cases of str_value (int / hex / float x forced / user / default with and without active range) are proved by the thorough command only. Finalisation (folding inherited dependencies into prompt conditions) and whole-tree behaviour are bounded (rtc.drv_eval).', "note": ASSUMED_EVAL + 'Category is `other` because the quick command does not re-prove the numeric branches; known findings: see KNOWN_FINDINGS.jsonl (symbol operand of set for numeric targets, pick of a hidden choice member).'},
+
     "C02": {
         "category": "other", "technique": T_MIXED, "design_ref": "DESIGN.md §5.2",
         "text": ("Proved: Symbol.config_string equals the one-line spec (marker, name, value, quoting) for every type, "
@@ -63,13 +54,8 @@ CLAIMS = {
         "note": (ASSUMED_EVAL + "Header/CMake/JSON agreement and the deferred application of member assignments in "
                  "_load_config are covered by the bounded stand-in (rtc.drv_eval), not proved."),
     },
-    "C06": {
-        "category": "proof", "technique": T_MIXED, "design_ref": "DESIGN.md §5.6",
-        "text": ("The int, hex and float branches of Symbol.str_value are proved equal to the spec (value source precedence, "
-                 "clamping into the active range with canonical re-rendering), value_is_valid / set_value are proved to accept "
-                 "exactly the well-formed values and to store floats canonically, the header entry renders hex with 0x."),
-        "note": (ASSUMED_EVAL + "CMake / JSON generators and whole-run exception freedom are bounded (rtc.drv_eval)."),
-    },
+    "C06": {"category": 'other', "technique": T_MIXED, "design_ref": 'DESIGN.md §5.6', "text": "Proved on every run: value_is_valid / set_value accept exactly the values of the option's type and store floats canonically, the header entry equals the one-entry spec (hex with 0x), the case split of str_value is exhaustive. The int, hex and float branches of str_value (well-formed result, precedence of sources, clamping into the active range with canonical re-rendering) are proved by the thorough command only. CMake / JSON generators and whole-run exception freedom are bounded (rtc.drv_eval).", "note": ASSUMED_EVAL + 'Known findings (literal syntax accepted by int(), symbol operand of set) are listed in KNOWN_FINDINGS.jsonl.'},
+
     "C07": {
         "category": "other", "technique": T_MIXED, "design_ref": "DESIGN.md §5.7",
         "text": ("Proved: the sdkconfig entry (config_string) and the C header entry (_header_string) are each equal to one "
@@ -92,21 +78,13 @@ CLAIMS = {
     "C11": {"category": "other", "technique": T_BOUNDED, "design_ref": "DESIGN.md §5.11",
             "text": "Bounded: loading through a deprecated name ≡ loading through the new name (inversions, not-set lines, duplicates), never unknown, deprecated block ignored unless requested.",
             "note": "Nothing proved."},
-    "C12": {"category": "other", "technique": T_BOUNDED, "design_ref": "DESIGN.md §5.12",
-            "text": "Bounded: touch decision = changed, nothing else touched, repeated sync idempotent, and no trigger lost when the sync is killed at every file-system operation and rerun.",
-            "note": "Nothing proved; crash points are the file-system calls observed at run time."},
-    "C13": {"category": "other", "technique": T_BOUNDED, "design_ref": "DESIGN.md §5.13",
-            "text": "Bounded: unchanged regeneration leaves bytes, mtime and inode alone for every output format; a save with backup killed at every file-system operation leaves the new file or the complete .old.",
-            "note": "Nothing proved."},
-    "C14": {"category": "other", "technique": T_BOUNDED, "design_ref": "DESIGN.md §5.14",
-            "text": "Bounded: a model client applying every reply's differences equals a freshly started server on the saved file, protocol versions 1-3.",
-            "note": "Nothing proved (dict-comprehension VCs of diff stay undecided in z3 and cvc5)."},
+    "C12": {"category": 'other', "technique": T_MIXED, "design_ref": 'DESIGN.md §5.12', "text": 'Proved over a file-system effect model: _contents_eq is exact and _write_if_changed performs no write effect when the file already holds the text. Bounded: touch decision = changed, nothing else touched, repeated sync idempotent, and no trigger lost when the sync is killed at every file-system operation (incl. short writes of auto.conf) and rerun.', "note": 'File-system model (pyvc/effects.py) is trusted; sync_deps itself (loop over options, _load_old_vals) is bounded only.'},
+    "C13": {"category": 'other', "technique": T_MIXED, "design_ref": 'DESIGN.md §5.13', "text": 'Proved over a file-system effect model (ghost append-only trace): Kconfig.write_config / _write_if_changed / _contents_eq perform no write effect when the destination already holds the text; the effects of a save are exactly [backup effect on <file>.old]? . truncate(file) . write(file, text), the backup being an atomic replace (regular file) or a copy (symlink), so nothing touches the file before its backup exists. Bounded: every kconfgen format, modification times / inodes, and the crash clause on a real file system with a kill at every operation and short writes.', "note": 'Trusted: the file-system model and _config_contents / standard_config_filename (no write effects). The crash clause is decided on the bounded scope; the proved trace shape is what that argument rests on.'},
+    "C14": {"category": 'other', "technique": T_MIXED, "design_ref": 'DESIGN.md §5.14', "text": "Proved: kconfserver.diff(before, after) returns exactly the entries of `after` that are new or changed (so overlaying replies keeps a client equal to the server on the server's keys). Bounded: the client-sync invariant over whole request histories and equality with a freshly started server on the saved file, protocol versions 1-3.", "note": "run_server's loop, get_visible / get_ranges and handle_* are bounded only. Known findings: ranges that become inactive are never retracted; defaults of hidden unwritten options."},
     "C15": {"category": "other", "technique": T_BOUNDED, "design_ref": "DESIGN.md §5.15",
             "text": "Bounded: one JSON reply line per request line, survival, error reporting and no effect of the offending part, over a catalogue of malformed and type-confused requests.",
             "note": "Nothing proved."},
-    "C16": {"category": "other", "technique": T_MIXED, "design_ref": "DESIGN.md §5.16",
-            "text": "Proved: set_value stores user values in the canonical form a reload produces. Bounded: needs_save() false ⇒ file on disk equals what saving would write; false right after save / load.",
-            "note": "Baseline establishment in _load_config is bounded."},
+    "C16": {"category": 'other', "technique": T_MIXED, "design_ref": 'DESIGN.md §5.16', "text": "Proved: MenuConfigState.needs_save() is exact with respect to the baseline fields -- it answers clean iff the file had no unknown entries, exists, and every option's recorded entry (value, default marker) equals the line Symbol.config_string would write now; config_string, has_active_default_value and set_value are proved against their specs. Bounded: the baseline fields are what the file says after load / save / reload, over UI-level histories.", "note": "Baseline establishment in _load_config is bounded. Known findings: hand-edited files that differ from the tool's output only in layout / duplicates / deprecated spellings are reported clean."},
     "C17": {"category": "other", "technique": T_BOUNDED, "design_ref": "DESIGN.md §5.17",
             "text": "Bounded: every public method of MenuConfigState preserves the state invariant and does not raise, over action sequences on generated trees; validator-accepted values are applied.",
             "note": "Nothing proved."},
@@ -123,6 +101,6 @@ CLAIMS = {
 
 # properties not claimed yet (reason shown in MANIFEST.not_applicable); filled by tools/gen_manifest.py from the
 # set of ENABLED checks below
-ENABLED = ["C05"]
+ENABLED = ["C%02d" % i for i in range(1, 21)]
 
 NOT_APPLICABLE = {}
